@@ -1,7 +1,19 @@
 #!/bin/bash
 # usage: selftest/run_all.sh [pattern]   - runs every mutator selftest/patches/<prop>-*.sh against its property's quick check
+# (scratch worktree only) and records the outcomes in selftest/results.json
 cd /verif
 for P in selftest/patches/${1:-*}.sh; do
   B=$(basename $P .sh); PROP=$(echo ${B%%-*} | tr a-z A-Z)
-  selftest/mutant.sh $P $PROP 2>&1 | grep -E "^mutant=|MUTATOR|PATCH" 
+  OUT=$(selftest/mutant.sh $P $PROP 2>&1)
+  LINE=$(echo "$OUT" | grep -E "^mutant=|MUTATOR|PATCH" | head -1)
+  SIG=$(echo "$OUT" | grep "sig=" | head -1 | sed 's/ :: .*//' | sed 's/^ *//')
+  echo "$LINE $SIG"
+  python3 - "$B" "$PROP" "$LINE" "$SIG" <<'PY'
+import json,sys,os
+b,prop,line,sig=sys.argv[1:5]
+p='/verif/selftest/results.json'
+r=json.load(open(p)) if os.path.exists(p) else {}
+r[b]={"property":prop,"result":line.split("prop=")[-1] if "prop=" in line else line,"first_signature":sig}
+json.dump(r,open(p,'w'),indent=1,sort_keys=True)
+PY
 done
